@@ -22,6 +22,30 @@ def _safe(f):
         return False
 
 
+def optional_marker_ok():
+    """optional(a) == optional(b) iff a == b; equal markers hash alike; a marker is not its key"""
+    import d42
+    keys = ["a", "b", "", 1, True, 1.0, None, (1, 2), b"a", 0, False]
+    try:
+        for x in keys:
+            for y in keys:
+                ox, oy = d42.optional(x), d42.optional(y)
+                if bool(ox == oy) != bool(x == y) or bool(ox != oy) == bool(ox == oy):
+                    return False
+                if x == y and hash(ox) != hash(oy):
+                    return False
+            if d42.optional(x) == x or x == d42.optional(x):
+                return False
+        try:
+            d42.optional(...)
+            return False
+        except TypeError:
+            pass
+    except Exception:
+        return False
+    return True
+
+
 def describe(e):
     return {"schema": e["a"], "repr": e.get("arepr"), "refl": e["refl"], "rebuilt_eq": e["rebuilt_eq"],
             "ne_ok": e["ne_ok"], "sym_ok": e["sym_ok"], "trans_ok": e["trans_ok"], "value_ok": e["value_ok"],
@@ -86,11 +110,12 @@ def main(chk):
                 ne_bad[i] = True
     chk.count("pairs_compared", n * n)
     events = []
+    opt_ok = optional_marker_ok()
     for i, (a, x) in enumerate(reals):
         rebuilt = am.g_schema(a)
         probes = probe_values(x, nprobes, chk.rng)
         ev = {"id": i + 1, "a": a, "arepr": safe_repr(x)[:200],
-              "refl": eq[i][i],
+              "refl": eq[i][i], "optional_ok": opt_ok,
               "rebuilt_eq": _safe(lambda: bool(x == rebuilt) and not bool(x != rebuilt) and bool(rebuilt == x)),
               "ne_ok": not ne_bad[i],
               "sym_ok": all(eq[i][j] == eq[j][i] for j in range(n)),
@@ -116,7 +141,7 @@ def main(chk):
                 chk.count("distinct_pairs_equal")
         events.append(ev)
         chk.count("type_" + a["t"])
-    slim = [{k: e[k] for k in ("id", "a", "refl", "rebuilt_eq", "ne_ok", "sym_ok", "trans_ok", "value_ok",
+    slim = [{k: e[k] for k in ("id", "a", "optional_ok", "refl", "rebuilt_eq", "ne_ok", "sym_ok", "trans_ok", "value_ok",
                                "equals")} for e in events]
     for e in slim:
         e["equals"] = [{"b": x["b"], "probes": x["probes"]} for x in e["equals"]]
